@@ -189,12 +189,36 @@ func c06RolesJob(tier string) *SeqJob {
 		NameCharacters:  tally.ValidCharacters{Ranges: shared, Characters: []rune{'.', '-'}},
 		KeyCharacters:   tally.ValidCharacters{Ranges: shared, Characters: []rune{'_'}},
 		ValueCharacters: tally.ValidCharacters{Ranges: shared, Characters: []rune{'.', ':'}}, ReplacementCharacter: '!'}})
-	strs := []string{"a.b", "a_b", "aZ9", "é.", ""}
+	// the library's exported character sets, as an application uses them: in options, and as a base to append to.
+	// The reference for this configuration is written out literally (it must not be read back from library variables).
+	stockRef := tally.SanitizeOptions{
+		NameCharacters:  tally.ValidCharacters{Ranges: []tally.SanitizeRange{{'a', 'z'}, {'A', 'Z'}, {'0', '9'}}, Characters: []rune{'.', '-', '_'}},
+		KeyCharacters:   tally.ValidCharacters{Ranges: []tally.SanitizeRange{{'a', 'z'}, {'A', 'Z'}, {'0', '9'}}, Characters: []rune{'-', '_'}},
+		ValueCharacters: tally.ValidCharacters{Ranges: []tally.SanitizeRange{{'a', 'z'}, {'A', 'Z'}, {'0', '9'}}, Characters: []rune{'_'}}, ReplacementCharacter: '!'}
+	cfgs = append(cfgs, struct {
+		name string
+		o    tally.SanitizeOptions
+	}{"stock sets: name +UnderscoreDashDot / key +UnderscoreDash / value +Underscore", tally.SanitizeOptions{
+		NameCharacters:  tally.ValidCharacters{Ranges: tally.AlphanumericRange, Characters: tally.UnderscoreDashDotCharacters},
+		KeyCharacters:   tally.ValidCharacters{Ranges: tally.AlphanumericRange, Characters: tally.UnderscoreDashCharacters},
+		ValueCharacters: tally.ValidCharacters{Ranges: tally.AlphanumericRange, Characters: tally.UnderscoreCharacters}, ReplacementCharacter: '!'}})
+	stockIdx := len(cfgs) - 1
+	refOf := func(ci int) tally.SanitizeOptions {
+		if ci == stockIdx {
+			return stockRef
+		}
+		return cfgs[ci].o
+	}
+	strs := []string{"a.b", "a_b", "aZ9", "é.", "", "a-b:%"}
 	roles := []string{"Name", "Key", "Value"}
+	// every call goes to one of TWO sanitizers living in the process: the one under test, or a companion built
+	// from the next configuration (what one sanitizer has seen must not change what another one answers)
 	var alphabet []string
-	for _, r := range roles {
-		for _, s := range strs {
-			alphabet = append(alphabet, fmt.Sprintf("%s %q", r, s))
+	for _, who := range []string{"", "companion "} {
+		for _, r := range roles {
+			for _, s := range strs {
+				alphabet = append(alphabet, fmt.Sprintf("%s%s %q", who, r, s))
+			}
 		}
 	}
 	depth := tierInt(tier, 3, 4)
@@ -202,25 +226,33 @@ func c06RolesJob(tier string) *SeqJob {
 		return func(hist []int) (cl, det, key string, steps int) {
 			cl, det = guard(func() (string, string) {
 				c := cfgs[ci]
-				san := tally.NewSanitizer(c.o)
+				// an application that builds its own set on top of an exported one
+				_ = append(tally.UnderscoreCharacters, ':')
+				_ = append(tally.UnderscoreDashCharacters, '%')
+				cj := (ci + 1) % len(cfgs)
+				sans := []tally.Sanitizer{tally.NewSanitizer(c.o), tally.NewSanitizer(cfgs[cj].o)}
+				refs := []tally.SanitizeOptions{refOf(ci), refOf(cj)}
 				if cap(c.o.NameCharacters.Ranges) > len(c.o.NameCharacters.Ranges) {
 					// the application goes on using its slice: this writes into the spare capacity
 					_ = append(c.o.NameCharacters.Ranges, tally.SanitizeRange{'A', 'Z'})
 				}
 				for _, op := range hist {
-					role, str := roles[op/len(strs)], strs[op%len(strs)]
+					who := op / (len(roles) * len(strs))
+					op2 := op % (len(roles) * len(strs))
+					role, str := roles[op2/len(strs)], strs[op2%len(strs)]
+					san, ro := sans[who], refs[who]
 					var got, want string
 					switch role {
 					case "Name":
-						got, want = san.Name(str), refSanitize(c.o.NameCharacters, c.o.ReplacementCharacter, str)
+						got, want = san.Name(str), refSanitize(ro.NameCharacters, ro.ReplacementCharacter, str)
 					case "Key":
-						got, want = san.Key(str), refSanitize(c.o.KeyCharacters, c.o.ReplacementCharacter, str)
+						got, want = san.Key(str), refSanitize(ro.KeyCharacters, ro.ReplacementCharacter, str)
 					default:
-						got, want = san.Value(str), refSanitize(c.o.ValueCharacters, c.o.ReplacementCharacter, str)
+						got, want = san.Value(str), refSanitize(ro.ValueCharacters, ro.ReplacementCharacter, str)
 					}
 					steps++
 					if got != want {
-						return "role-result-depends-on-history", fmt.Sprintf("[%s] after %v: %s(%q) = %q, want %q", c.name, histLabels(alphabet, hist), role, str, got, want)
+						return "role-result-depends-on-history", fmt.Sprintf("[%s; companion %s] after %v: %s(%q) = %q, want %q", c.name, cfgs[cj].name, histLabels(alphabet, hist), role, str, got, want)
 					}
 				}
 				return "", ""
